@@ -47,6 +47,9 @@ var enums = map[string]func(tier string, deadline time.Time) *run.EnumResult{
 
 var mspecs = map[string]func(tier string) []*mc.MSpec{
 	"C02": mspecsC02,
+	"C04": mspecsAccess,
+	"C05": mspecsAccess,
+	"C06": mspecsAccess,
 	"C08": mspecsC08,
 	"C09": mspecsC09,
 }
